@@ -69,8 +69,13 @@ func (m *Orthographic) Reverse(xy geom.XY) geom.XY {
 		cosφ0 = m.cosφ0
 		sinφ0 = m.sinφ0
 	)
+	ρ := xy.Length()
+	if ρ == 0 {
+		// The formulas below divide by ρ. The center of the projection maps
+		// back to the center.
+		return rtodxy(λ0, atan2(sinφ0, cosφ0))
+	}
 	var (
-		ρ = xy.Length()
 		c = asin(ρ / R)
 		φ = asin(cos(c)*sinφ0 + y*sin(c)*cosφ0/ρ)
 		λ = λ0 + atan(x*sin(c)/(ρ*cos(c)*cosφ0-y*sin(c)*sinφ0))
